@@ -675,7 +675,7 @@ func moveSplits(fromOr, toOr *OutRec) {
 func getCleanPath(op *OutPt) Path64 {
 	res := make(Path64, 0)
 	op2 := op
-	for op2.next != op &&
+	for op2.next != op && op2.pt != op2.prev.pt &&
 		((op2.pt.X == op2.next.pt.X && op2.pt.X == op2.prev.pt.X) ||
 			(op2.pt.Y == op2.next.pt.Y && op2.pt.Y == op2.prev.pt.Y)) {
 		op2 = op2.next
